@@ -11,7 +11,8 @@ RULE = ("random documented-valid calls of anneal_qubo/quso/pubo/puso: model as d
         "initial_state or none; both orders; seed None/0/5/2^31-1; num_anneals in {-1,0,1,3,7}. The extension is "
         "rebuilt from the working tree with the H2 hook. Non-trivial = model with >= 2 variables, >= 2 terms and "
         "num_anneals >= 1; distinct = digest of (function, type, terms, kwargs)")
-TIERS = {"quick": {"shards": 8, "cases": 450}, "thorough": {"shards": 16, "cases": 10000}}
+TIERS = {"quick": {"shards": 8, "cases": 4000}, "thorough": {"shards": 16, "cases": 10000}}
+FLOOR_BASE = {"quick": 300, "thorough": 10000}    # case counts the floors below were calibrated for; the launcher scales them
 
 
 def FLOORS(tier):
